@@ -79,6 +79,18 @@ struct World {
     for (auto &o : objs) for (size_t i = 0; i < s.ndict; i++) if (CO_GET_DEV(s.dict[i].Key) == CO_DEV(o.idx, o.sub)) o.dict_index = (int)i;
     if (start) { s.start(); s.clear_tx(); s.clear_ev(); }
   }
+  // an LSS master gives the node another node id: switch to configuration state, configure node id, store, back to waiting state, NMT reset
+  // communication - from the boot-up frame on every service works with the new id (the SDO servers listen on 600h/640h + id and answer on 580h/5C0h + id)
+  void lss_renumber(uint8_t newid) {
+    s.clear_tx(); s.clear_ev();
+    s.rx(Frame::mk(0x7E5, 8, {4, 1, 0, 0, 0, 0, 0, 0})); s.rx(Frame::mk(0x7E5, 8, {17, newid, 0, 0, 0, 0, 0, 0})); s.rx(Frame::mk(0x7E5, 8, {23, 0, 0, 0, 0, 0, 0, 0})); s.rx(Frame::mk(0x7E5, 8, {4, 0, 0, 0, 0, 0, 0, 0}));
+    s.clear_tx(); s.rx(Frame::mk(0, 2, {130, 0}));
+    bool boot = false; for (auto &t : s.tx) if (t.id == 0x700u + newid && t.dlc == 1 && t.d[0] == 0) boot = true;
+    CHECK(c, boot, "harness", "no boot-up frame on %03X after the LSS node id change to %u and an NMT reset communication", 0x700u + newid, newid);
+    s.nodeid = newid; for (int n = 0; n < CO_SSDO_N; n++) { req[n] = (n == 0 ? 0x600u : 0x640u) + newid; rsp[n] = (n == 0 ? 0x580u : 0x5C0u) + newid; }
+    VLOG(c, "LSS: node id changed to %u, stored, NMT reset communication", newid);
+    s.clear_tx(); s.clear_ev();
+  }
   TObj *lookup(uint16_t idx, uint8_t sub) { for (auto &o : objs) if (o.idx == idx && o.sub == sub) return &o; return nullptr; }
   // the bytes a client must read from the object right now
   std::vector<uint8_t> content(const TObj &o) const {
